@@ -130,7 +130,11 @@ func tolerations(ts []Tol) []corev1.Toleration {
 func taints(ts []Taint) []corev1.Taint {
 	var out []corev1.Taint
 	for _, t := range ts {
-		out = append(out, corev1.Taint{Key: t.Key, Value: t.Value, Effect: corev1.TaintEffect(t.Effect)})
+		x := corev1.Taint{Key: t.Key, Value: t.Value, Effect: corev1.TaintEffect(t.Effect)}
+		if t.TimeAdded {
+			x.TimeAdded = &metav1.Time{Time: world.Epoch}
+		}
+		out = append(out, x)
 	}
 	return out
 }
@@ -413,7 +417,7 @@ func BuildNode(n Node, pool *v1.NodePool, now time.Time) (*v1.NodeClaim, *corev1
 	}
 	node := &corev1.Node{
 		ObjectMeta: metav1.ObjectMeta{Name: n.Name, Labels: lo.Assign(full, map[string]string{corev1.LabelHostname: n.Name})},
-		Spec:       corev1.NodeSpec{ProviderID: ProviderID(n), Taints: taints(n.Taints)},
+		Spec:       corev1.NodeSpec{ProviderID: ProviderID(n), Taints: append(taints(n.Taints), taints(n.NodeTaints)...)},
 		Status: corev1.NodeStatus{Capacity: rl(n.Cap.CPU, n.Cap.Mem, n.Cap.Pods), Allocatable: rl(n.Alloc.CPU, n.Alloc.Mem, n.Alloc.Pods)},
 	}
 	world.SetNodeReady(node, true, now)
